@@ -20,6 +20,21 @@ func isLockCall(name string) bool {
 
 func (ex *Exec) execCall(st *State, in *ssa.Call) {
 	rs := ex.execCommon(st, in.Common(), in, in.Pos(), false)
+	if ex.con != nil && ex.con.Ticks != nil {
+		cn := ""
+		if callee := in.Common().StaticCallee(); callee != nil {
+			cn = callee.Name()
+		} else if in.Common().IsInvoke() {
+			cn = in.Common().Method.Name()
+		}
+		if g, ok := ex.con.Ticks[cn]; ok && cn != "" {
+			name := "G_ghost." + g
+			cur := ex.heapGet(st, name, SInt)
+			ex.heapSet(st, name, ex.define(name, Add(cur, IntLit(1))))
+			ex.heapWrites[name] = true
+			ex.obsSeen["tick:"+g] = true
+		}
+	}
 	if ex.con != nil && ex.con.Counts != nil {
 		if callee := in.Common().StaticCallee(); callee != nil {
 			if v, ok := ex.con.Counts[callee.Name()]; ok {
